@@ -43,8 +43,10 @@ CHECK_FLAGS = ["--pointer-check", "--bounds-check", "--pointer-overflow-check",
                "--object-bits", "12", "--slice-formula"]
 
 MIN_UNWIND = 10
-# CaDiCaL (built into this cbmc) is 5-20x faster than the default MiniSat on the memcpy-heavy units
-SOLVER = os.environ.get("VERIF_CBMC_SOLVER", "cadical")
+# default SAT solver; units marked solver="cadical" (built into this cbmc) are 5-20x faster with
+# CaDiCaL than with MiniSat (symbolic-offset memcpy into symbolic-size objects), the quantifier /
+# small-array units are faster with MiniSat
+SOLVER = os.environ.get("VERIF_CBMC_SOLVER", "minisat2")
 
 BASE_TRUST = [
     "CBMC 6.11 / DFCC (goto-cc front end, contract instrumentation, bit-precise SAT back end) is sound",
@@ -940,7 +942,7 @@ def _register():
         "output_chaining_value", ["C07"], replace=["blake3_compress_in_place"], inlined=["store_cv_words", "store32"],
         doc="writes exactly cv[0..32) (+ feature cache); block_len <= 64 passed on")
     U["output_root_bytes"] = _u(
-        "output_root_bytes", ["C07"], replace=["blake3_compress_xof", "blake3_xof_many"],
+        "output_root_bytes", ["C07"], solver="cadical", replace=["blake3_compress_xof", "blake3_xof_many"],
         doc="writes exactly out[0..out_len) for every seek and out_len (unbounded); nothing for out_len == 0")
     U["chunk_state_update"] = _u(
         "chunk_state_update", ["C07", "C06"], replace=["chunk_state_fill_buf", "blake3_compress_in_place"],
@@ -1002,7 +1004,7 @@ def _register():
         "hasher_push_cv", ["C07", "C06"], replace=["hasher_merge_cv_stack"],
         doc="len' == min(len, popcnt(counter)) + 1 <= 55: the 32 new bytes land inside cv_stack")
     U["blake3_hasher_update_base"] = _u(
-        "blake3_hasher_update_base", ["C07", "C06"], tier="thorough", timeout=1500,
+        "blake3_hasher_update_base", ["C07", "C06"], tier="thorough", timeout=1800, solver="cadical",
         replace=["chunk_state_update", "output_chaining_value", "hasher_push_cv", "round_down_to_power_of_2",
                  "compress_subtree_to_parent_node", "hasher_merge_cv_stack"],
         inlined=["chunk_state_len", "chunk_state_output", "chunk_state_reset", "chunk_state_init", "make_output",
@@ -1019,6 +1021,7 @@ def _register():
         doc="same contract as update_base; update(_, _, 0) assigns nothing; key never written")
     U["blake3_hasher_finalize_seek"] = _u(
         "blake3_hasher_finalize_seek", API + ["C06"], replace=["output_chaining_value", "output_root_bytes"],
+        solver="cadical",
         inlined=["chunk_state_output", "parent_output", "make_output", "chunk_state_len", "chunk_state_maybe_start_flag"],
         loops=[("blake3.c", "blake3_hasher_finalize_seek", 0)],
         doc="assigns only out[0..out_len) (+ feature cache): the hasher is not written; out_len == 0 needs no "
